@@ -55,6 +55,17 @@ def roles_of(ctx, fn):
         if isinstance(a[2], ast.Attribute) and a[2].attr == 'offset' and isinstance(a[2].value, ast.Name):
             r['model'] = a[2].value.id
     r['_pcall'] = pcalls[0] if pcalls else None
+    if not pcalls:
+        # packaging written out in the front end itself: res.add_state({rmap[k]: v for k, v in enumerate(states[i])}, values[i] + offset, True)
+        for c in calls_in(fn.node, 'add_state'):
+            for x in ast.walk(fn.node):
+                if isinstance(x, ast.DictComp) and isinstance(x.key, ast.Subscript) and isinstance(x.key.value, ast.Name):
+                    r['rmap'] = x.key.value.id
+            if len(c.args) >= 2:
+                off = [y for y in ast.walk(expand_names(fn.node, c.args[1])) if isinstance(y, ast.Attribute) and y.attr == 'offset'
+                       and isinstance(y.value, ast.Name)]
+                if off:
+                    r['model'] = off[0].value.id
     # N: first C argument (puso) or the multiplier of the per-spin list h (quso)
     if 'len_state' in r:
         r['N'] = r['len_state']
@@ -160,6 +171,19 @@ def marshalling_python(ctx, rid, fn):
         ctx.inst(rid, fn, 'init_state', False, "init_state is never built")
     if fn.name == 'anneal_quso':
         H, NN, NB, JJ = ro.get('h', 'h'), ro.get('num_neighbors', 'num_neighbors'), ro.get('neighbors', 'neighbors'), ro.get('J', 'J')
+        # the flattened arrays handed to C may carry their own names: rows Y, flat X = list(chain(*Y))
+        flat_of = {}
+
+        def rows_of(nm):
+            for s_, v in assignments_to(fn.node, nm):
+                if isinstance(v, ast.AST):
+                    m = re.fullmatch(r'list\(chain(?:\.from_iterable)?\(\*?(\w+)\)\)', src(v))
+                    if m:
+                        flat_of[m.group(1)] = nm
+                        return m.group(1)
+            return nm
+        NB_flat, JJ_flat = NB, JJ
+        NB, JJ = rows_of(NB), rows_of(JJ)
         n_ = re.escape(N)
         sized = {H: r'\[0\.0?\] \* ' + n_, NN: r'\[0\] \* ' + n_,
                  NB: r'\[\[\] for \w+ in range\(%s\)\]' % n_, JJ: r'\[\[\] for \w+ in range\(%s\)\]' % n_}
@@ -186,7 +210,8 @@ def marshalling_python(ctx, rid, fn):
                      "neighbors[%s], J[%s] appended and num_neighbors[%s] counted together" % (idx, idx, idx) if ok else
                      "`%s` is not paired in its block with the appends to neighbors/J and the count of num_neighbors for "
                      "index %s: the C kernel walks num_neighbors[i] entries of both arrays" % (src(c), idx))
-        fl = {nm: [v for s_, v in assignments_to(fn.node, nm) if isinstance(v, ast.AST) and 'chain(' in src(v)] for nm in (JJ, NB)}
+        fl = {rows: [v for s_, v in assignments_to(fn.node, flat) if isinstance(v, ast.AST) and 'chain(' in src(v)]
+              for rows, flat in ((JJ, JJ_flat), (NB, NB_flat))}
         ok = all(fl[nm] and src(fl[nm][0]) in ('list(chain(*%s))' % nm, 'list(chain.from_iterable(%s))' % nm) for nm in fl)
         ctx.inst(rid, fn, 'flattening', ok, "J and neighbors are flattened row by row in the same order" if ok else
                  "J / neighbors are not flattened as list(chain(*rows)) of their own rows")
@@ -233,7 +258,7 @@ def rules(ctx):
     ctx.rule('R11.9', "the C energy functions visit every term: no continue/break/goto, the accumulation of every "
                       "spin / term is unconditional", floor=5)
     C = ctx.cprog
-    pk = P.func('_anneal._package_spin_results')
+    pk = P.func('_anneal._package_spin_results') if P.has_func('_anneal._package_spin_results') else None
 
     for name, cname in SPIN_FUNCS.items():
         fn = P.func('_anneal.%s' % name)
@@ -255,10 +280,15 @@ def rules(ctx):
         res_names = [src(e) for e in cst.targets[0].elts] if isinstance(cst, ast.Assign) and isinstance(cst.targets[0], ast.Tuple) else []
         pcalls = [c for c in calls_in(fn.node) if is_name(c.func, '_package_spin_results')]
         ro = roles_of(ctx, fn)
-        ok = len(pcalls) == 1 and len(res_names) == 2 and [src(a) for a in pcalls[0].args] == res_names + ['%s.offset' % ro['model'], ro['rmap']]
-        ctx.inst('R11.2', fn, pcalls[0] if pcalls else '_package_spin_results', ok,
-                 "results packaged with the C states/values, model.offset and the branch's reverse mapping" if ok else
-                 "results are not packaged as _package_spin_results(states, values, model.offset, reverse_mapping)")
+        if pk is not None:
+            ok = len(pcalls) == 1 and len(res_names) == 2 and [src(a) for a in pcalls[0].args] == res_names + ['%s.offset' % ro['model'], ro['rmap']]
+            ctx.inst('R11.2', fn, pcalls[0] if pcalls else '_package_spin_results', ok,
+                     "results packaged with the C states/values, model.offset and the branch's reverse mapping" if ok else
+                     "results are not packaged as _package_spin_results(states, values, model.offset, reverse_mapping)")
+        elif len(res_names) == 2:
+            package_rules(ctx, fn, fn, res_names[0], res_names[1], '%s.offset' % ro['model'], ro['rmap'])
+        else:
+            ctx.inst('R11.2', fn, cst, False, "the C call's (states, values) result is not unpacked")
         items = [n for n in walk_no_nested(strip_docstring(fn.node.body)) if isinstance(n, ast.For) and src(n.iter).endswith('.items()')
                  and ro['rmap'] not in src(n.iter)]
         okm = bool(items) and all(src(n.iter) == '%s.items()' % ro['model'] for n in items)
@@ -366,23 +396,9 @@ def rules(ctx):
             ctx.inst('R11.5', fn, c, bool(ok), "schedule computed from the model being annealed" if ok else
                      "the temperature schedule is computed from another object than the model")
     # ---------------------------------------------------------------- R11.2 package
-    adds = [c for c in calls_in(pk.node, 'add_state')]
-    lp0 = [n for n in walk_no_nested(strip_docstring(pk.node.body)) if isinstance(n, ast.For)]
-    iv = src(lp0[0].target) if lp0 else 'i'
-    pst, pvl, pof, prm = (pk.params + ['states', 'values', 'offset', 'reverse_mapping'])[:4]
-    ok = len(adds) == 1 and len(adds[0].args) == 3 and src(adds[0].args[1]) in ('%s[%s] + %s' % (pvl, iv, pof), '%s + %s[%s]' % (pof, pvl, iv)) \
-        and is_const(adds[0].args[2], True)
-    ctx.inst('R11.2', pk, adds[0] if adds else 'add_state', ok, "value = C energy + offset, spin flag True" if ok else
-             "_package_spin_results does not add (state, values[i] + offset, True)")
-    ctx.inst('R11.8', pk, adds[0] if adds else 'add_state', ok and is_const(adds[0].args[2], True), "spin flag is the literal True")
-    st = [v for s_, v in assignments_to(pk.node, 'state') if isinstance(v, ast.DictComp)]
-    st = [n_.value for n_ in walk_no_nested(strip_docstring(pk.node.body)) if isinstance(n_, ast.Assign) and isinstance(n_.value, ast.DictComp)]
-    oks = bool(st) and isinstance(st[0].key, ast.Subscript) and src(st[0].key.value) == prm and 'enumerate(%s[%s])' % (pst, iv) in src(st[0])
-    ctx.inst('R11.2', pk, 'state relabelling', oks, "each position k is relabelled through reverse_mapping" if oks else
-             "states are not relabelled position by position through the reverse mapping")
-    lp = [n for n in walk_no_nested(strip_docstring(pk.node.body)) if isinstance(n, ast.For)]
-    okn = bool(lp) and src(lp[0].iter) == 'range(len(%s))' % pst
-    ctx.inst('R11.2', pk, lp[0] if lp else 'loop', okn, "one result per returned state" if okn else "not every returned state becomes a result")
+    if pk is not None:
+        pst, pvl, pof, prm = (pk.params + ['states', 'values', 'offset', 'reverse_mapping'])[:4]
+        package_rules(ctx, pk, pk, pst, pvl, pof, prm)
 
     from .C14 import registration_parity
     registration_parity(ctx, 'R11.3')      # labelled branch: labels of to_puso()/to_quso() are < num_binary_variables
@@ -391,6 +407,29 @@ def rules(ctx):
     state_value_set(ctx, 'R11.8')
     energy_loops(ctx, 'R11.9')
     layout_agreement(ctx, 'R11.6')
+
+
+def package_rules(ctx, where, host, pst, pvl, pof, prm):
+    """R11.2 / R11.8 for the code that turns the C result into AnnealResults - the packaging helper, or the front end
+    itself when the helper was inlined: value = values[i] + offset of the marshalled model, spin flag True, every
+    position relabelled through the reverse mapping."""
+    adds = [c for c in calls_in(host.node, 'add_state')]
+    lp0 = [n for n in walk_no_nested(strip_docstring(host.node.body)) if isinstance(n, ast.For)
+           and any(c in list(ast.walk(n)) for c in adds)]
+    iv = src(lp0[0].target) if lp0 else 'i'
+    ok = False
+    if len(adds) == 1 and len(adds[0].args) == 3:
+        val = src(expand_names(host.node, adds[0].args[1]))
+        ok = val in ('%s[%s] + %s' % (pvl, iv, pof), '%s + %s[%s]' % (pof, pvl, iv)) and is_const(adds[0].args[2], True)
+    ctx.inst('R11.2', where, adds[0] if adds else 'add_state', ok, "value = C energy + offset, spin flag True" if ok else
+             "the packaging does not add (state, %s[i] + %s, True)" % (pvl, pof))
+    ctx.inst('R11.8', where, adds[0] if adds else 'add_state', ok and is_const(adds[0].args[2], True), "spin flag is the literal True")
+    okn = bool(lp0) and src(lp0[0].iter) in ('range(len(%s))' % pst, 'range(len(%s))' % pvl)
+    ctx.inst('R11.2', where, lp0[0] if lp0 else 'loop', okn, "one result per returned state" if okn else "not every returned state becomes a result")
+    st = [x for l in lp0 for x in ast.walk(l) if isinstance(x, ast.DictComp)]
+    oks = bool(st) and isinstance(st[0].key, ast.Subscript) and src(st[0].key.value) == prm and 'enumerate(%s[%s])' % (pst, iv) in src(st[0])
+    ctx.inst('R11.2', where, 'state relabelling', oks, "each position k is relabelled through reverse_mapping" if oks else
+             "states are not relabelled position by position through the reverse mapping")
 
 
 def layout_agreement(ctx, rid):
